@@ -193,7 +193,7 @@ func runC09(c *Ctx) {
 
 	for _, loc := range p.EdgeSuccs(run, "true(lookup(makemap,*)#1)") {
 		for _, rs := range relStarts {
-			if rs.B.Dominates(loc.B) {
+			if dominates(rs.B, loc.B) {
 				parkedInRelease = append(parkedInRelease, loc)
 			}
 		}
